@@ -30,8 +30,8 @@ NONCHAIN = ("block_with_3+_articulation_points", "articulation_point_in_3+_block
 
 
 def plan(tier):
-    return {"cases": 800 if tier == "quick" else 2400, "shards": 16,
-            "shard_budget_s": 400 if tier == "quick" else 2400}
+    return {"cases": 800 if tier == "quick" else 20000, "shards": 16,
+            "shard_budget_s": 400 if tier == "quick" else 3300}
 
 
 def required(tier):
